@@ -233,18 +233,22 @@ func (w *World) batchRoot(kind string, addr atree.Address, n int, dig *DigProfil
 	w.logOp("root built by the batch constructor from %d elements", n)
 	w.stats.Extra["roots-built-by-batch-constructor"]++
 	ti := w.newTI(false)
+	// element sizes as in the mini streams of C17: every element of a short stream, and the last 2-14 elements of a long
+	// one (behind filler of half-limit elements), is drawn from {tiny, 40 bytes, a third, 45 %, half, limit-1, limit}
+	miniFrom := 0
+	if n > 14 {
+		miniFrom = n - 2 - w.rng.Intn(13)
+	}
 	tail := func(i int, limit uint32) *Node {
-		if i >= n-3 {
-			switch w.rng.Intn(4) {
-			case 0:
-				return &Node{Kind: KU8, U: uint64(i % 200)}
-			case 1:
-				return &Node{Kind: KStr, S: w.strOfByteSize(int(limit) - w.rng.Intn(3))}
-			case 2:
-				return &Node{Kind: KStr, S: w.strOfByteSize(int(limit) * 45 / 100)}
-			}
+		lim := int(limit)
+		if i < miniFrom {
+			return &Node{Kind: KStr, S: w.strOfByteSize(lim/2 + w.rng.Intn(4))}
 		}
-		return w.genScalar(limit)
+		sz := []int{3, 40, lim / 3, lim * 45 / 100, lim / 2, lim - 1, lim}[w.rng.Intn(7)]
+		if sz <= 3 {
+			return &Node{Kind: KU8, U: uint64(i % 200)}
+		}
+		return &Node{Kind: KStr, S: w.strOfByteSize(sz)}
 	}
 	if kind == "array" {
 		stream := make([]*Node, n)
@@ -275,7 +279,7 @@ func (w *World) batchRoot(kind string, addr atree.Address, n int, dig *DigProfil
 		return nil, err
 	}
 	for i := 0; i < n; i++ {
-		k := w.genKey(src, n*3+10)
+		k := &Node{Kind: KU64, U: uint64(i)}
 		if err := w.OpMapSet(src, k, tail(i, mapValueLimit(k))); err != nil {
 			w.traceOn = saveTrace
 			return nil, err
@@ -465,7 +469,7 @@ func basicCase(c *CaseCtx, kind string) *ContCase {
 	cc.Relaxed = r.Intn(3) == 0
 	cc.DrainAtEnd = c.Case%3 == 0
 	if c.Case%7 == 6 {
-		cc.BatchStart = []int{2, 3, 4, 5, 7, 12, 40, 150}[r.Intn(8)]
+		cc.BatchStart = []int{2, 3, 4, 5, 6, 7, 9, 12, 40, 150}[r.Intn(10)]
 	}
 	return cc
 }
